@@ -405,6 +405,10 @@ func (g *G) genFuncCall(label string) string {
 		g.L.Add("fn:todo")
 		if g.flip(label + "-msg") {
 			if g.chance(40, label+"-msgtext") {
+				if g.chance(30, label+"-msg2") {
+					// further arguments do not belong to the message
+					return fmt.Sprintf(`%%todo(%s, %s)%%`, g.fnArg(g.fnStringLit(label+"-m"), "string", label+"-m"), g.fnStringLit(label+"-m2"))
+				}
 				return fmt.Sprintf(`%%todo(%s)%%`, g.fnArg(g.fnStringLit(label+"-m"), "string", label+"-m"))
 			}
 			return `%todo("not yet")%`
@@ -984,7 +988,7 @@ func (g *G) genStdlib() {
 	}
 	for _, a := range g.Aliases {
 		switch a.K {
-		case "bytes", "strings", "unicode", "bufio":
+		case "bytes", "strings", "unicode", "bufio", "os", "fmt", "errors":
 			return
 		}
 	}
@@ -996,6 +1000,14 @@ func (g *G) genStdlib() {
 			g.L.Add("stdlib-constructor:with-getter-type")
 		}
 		g.C.Services = append(g.C.Services, s)
+	}
+	if g.flip("stdlib-template-import") {
+		// a getter type from a package the generated code imports for its own needs
+		g.C.Services = append(g.C.Services, cfg.Service{Name: "zz-in", Value: cfg.P("os.Stdin"), Getter: cfg.P("GetZzIn"), Type: cfg.P("*os.File")})
+		if g.flip("stdlib-template-import2") {
+			g.C.Services = append(g.C.Services, cfg.Service{Name: "zz-err", Ctor: cfg.P("errors.New"), Args: []cfg.Val{cfg.Str("e")}, Getter: cfg.P("GetZzErr"), Type: cfg.P("fmt.Stringer")})
+		}
+		g.L.Add("stdlib-constructor:type-from-a-template-import")
 	}
 	if g.flip("stdlib-late") {
 		g.C.Services = append(g.C.Services, cfg.Service{Name: "zz-rd", Ctor: cfg.P("strings.NewReader"), Args: []cfg.Val{cfg.Str("y")}})
